@@ -2,7 +2,7 @@ from datetime import datetime
 from typing import Optional, Union, Iterable, Callable, Any, Dict
 
 from pjplan.alg.critical_path import CriticalPathCalculator
-from pjplan.task import Task, EMPTY_TASK_ID, _ChildrenList, _ImmutableTaskList, _to_list, _Repr
+from pjplan.task import Task, EMPTY_TASK_ID, _ChildrenList, _ImmutableTaskList, _to_list, _unique_tasks, _Repr
 
 
 class WBS:
@@ -140,6 +140,11 @@ class WBS:
         return cloned_tasks
 
     def __clone(self, roots: Iterable[Task]) -> 'WBS':
+
+        # A selected task that lies below another selected task is copied with that task's subtree,
+        # at its own place in the hierarchy: it is not a root of the copy. Repeated tasks count once.
+        selected = set(id(r) for r in roots)
+        roots = [r for r in _unique_tasks(roots) if not any(id(p) in selected for p in r.all_parents)]
 
         cloned_tasks = self.__clone_tasks(roots)
 
